@@ -42,7 +42,7 @@ def check(tier):
     require_model_ok(res, "grammar simulation")
     rep.add_tlc("MC_PongoApi grammar simulation (seed %d)" % seed(), res)
     # the systematic cross product: operators x value pairs, filters x values x parameters, constructs x values
-    for fam in ["ops", "filters", "constructs", "names"]:
+    for fam in ["ops", "filters", "constructs", "names", "recursion"]:
         ccfg = ("INIT %s\nNEXT CrossNext\nCONSTANTS\n  RegTags = {%s}\n  RegFilters = {%s}\n  CtxNames = {%s}\n  Budget = 0\n  CrossFamily = \"%s\"\nINVARIANTS CrossEmit\n"
                 % ("CrossInitNames" if fam == "names" else "CrossInit", q(reg["tags"]), q(reg["filters"]), q(names), fam))
         res = run_tlc("MC_PongoApi", "cross.cfg", timeout=3000, deadlock=False, extra_files={"cross.cfg": ccfg},
